@@ -13,6 +13,7 @@
 -/
 import Model.Template
 import Model.JsonGrammar
+import Proofs.JsonAccept
 
 namespace Jl.C16
 open Jl Jl.Value Jl.Template
@@ -45,6 +46,25 @@ theorem rejected_line_writes_nothing (env : Env) (ti to : Tmpl) (line : Bytes)
     (row : List (Bytes × Val)) (e : ErrClass) (h : getRow env ti line = .ok (row, some e)) :
     jlLine env ti to line = .ok ([], some e) := by
   simp [jlLine, h]
+
+/-- C16, the equivalence: for EVERY byte string, the reader accepts the text if and only if it
+    is exactly one RFC 8259 JSON object optionally surrounded by whitespace (both directions;
+    completeness includes that the parser's fuel suffices). -/
+theorem accepted_iff_one_json_object (bs : Bytes) :
+    Json.accepts bs = true ↔ Grammar.IsObjectText bs :=
+  JsonAcc.accepts_iff bs
+
+/-- … so every other text is rejected: invalid JSON, a non-object value, trailing content,
+    a truncated object, an empty or blank line. -/
+theorem rejected_iff_not_one_json_object (bs : Bytes) :
+    Json.accepts bs = false ↔ ¬ Grammar.IsObjectText bs :=
+  JsonAcc.rejects_iff bs
+
+/-- With a template: a line is accepted only if its text is one JSON object (and then its
+    declared columns converted: `unmarshalInto` returned no error). -/
+theorem accepted_row_implies_object_text (env : Env) (row o : List (Bytes × Val)) (text : Bytes)
+    (h : unmarshalInto env row text = .ok (o, none)) : Grammar.IsObjectText text :=
+  (JsonAcc.accepts_iff text).mp (syntax_error_reported env row text o h)
 
 /-! Rejections and acceptances by kernel evaluation of the reader model on the texts named
     in the property (examples, not the theorem: the equivalence with the grammar for every
